@@ -1,5 +1,7 @@
 /- driver family `path`: C09/C10 histories over exact data (V3 Int, signed-permutation M3 Int) -/
 import MagpyVerif.Model.Tree
+import MagpyVerif.Model.Angax
+import Driver.KernFam
 import Driver.Parse
 
 namespace Driver.PathFam
@@ -52,6 +54,26 @@ partial def dump : Tree → String
 inductive Cmd where
   | new (t : Tree)
   | op (o : Op Rot Vec)
+  | unsnappable
+
+/-! `rotate_from_angax`: the conversion (Model/Angax.lean) runs in IEEE double; scipy's `from_rotvec`
+is replaced by Rodrigues' matrix snapped to the integer grid (the harness snaps scipy's result in the
+same way); a matrix farther than 1e-9 from the grid makes the line `unsnappable`. -/
+
+def snapEntry (e : Float) : Option Int :=
+  let r := e.round
+  if (e - r).abs > 1e-9 then none else some r.toInt64.toInt
+
+def snapV (v : V3 Float) : Option Vec := do pure ⟨← snapEntry v.x, ← snapEntry v.y, ← snapEntry v.z⟩
+def snapM (m : M3 Float) : Option Rot := do pure ⟨← snapV m.r1, ← snapV m.r2, ← snapV m.r3⟩
+
+def fromRotvecSnap (v : V3 Float) : Rot := (snapM (Angax.rotvecMatrix v)).getD 1
+
+def axisIn : P (Angax.AxisIn Float) := do
+  match (← tok) with
+  | "str" => pure (.str (← tok))
+  | "vec" => pure (.vec (← KernFam.v3))
+  | t => throw s!"bad axis tag {t}"
 
 def cmd : P Cmd := do
   match (← tok) with
@@ -71,6 +93,12 @@ def cmd : P Cmd := do
   | "reset" => do
       let a ← addr
       pure (.op (.reset a))
+  | "angax" => do
+      let a ← addr; let ang ← pathIn KernFam.flt; let ax ← axisIn; let deg ← nat; let an ← anchor; let s ← start
+      match Angax.angaxRotvecs ang ax (deg != 0) with
+      | .ok rv => if rv.toList.any (fun v => (snapM (Angax.rotvecMatrix v)).isNone) then pure .unsnappable
+                  else pure (.op (Angax.angaxOp fromRotvecSnap a ang ax (deg != 0) an s))
+      | .error _ => pure (.op (Angax.angaxOp fromRotvecSnap a ang ax (deg != 0) an s))
   | "bad" => pure (.op .rejected)
   | t => throw s!"unknown path command {t}"
 
@@ -78,6 +106,7 @@ def step (st : Option Tree) (line : String) : Option Tree × String :=
   match runLine cmd line with
   | .error e => (st, s!"parse-error {e}")
   | .ok (.new t) => (some t, s!"ok {dump t}")
+  | .ok .unsnappable => (st, "unsnappable")
   | .ok (.op o) => match st with
       | some t =>
         let t' := t.step o
